@@ -5,6 +5,14 @@ import lib
 def _run(ctx):
     pid = ctx.pid
     lib.tlc(ctx, "mc_runloop", "MC_RunLoop.tla", "MC_RunLoop_thorough.cfg" if ctx.thorough else "MC_RunLoop.cfg", workers=2, timeout=1200)
+    if pid == "C34":
+        b3 = lib.tlc(ctx, "mc_runloop_bad_keep_snapshot", "MC_RunLoop.tla", "MC_RunLoop_bad_keep_snapshot.cfg", workers=2, timeout=600,
+                     expect_ok=False, count=False)
+        with open(b3["out"], errors="replace") as f:
+            txt = f.read()
+            # a constant-level invariant: TLC evaluates it before the first state ("is equal to FALSE")
+            if "Invariant C34_LatestRunCounts is violated" not in txt and "invariant of C34_LatestRunCounts is equal to FALSE" not in txt:
+                raise lib.ToolError("the seeded fault keep_unchanged_snapshot of RunLoop.tla is not rejected by TLC")
     bad = lib.tlc(ctx, "mc_runloop_as_shipped", "MC_RunLoop.tla", "MC_RunLoop_as_shipped.cfg", workers=2, timeout=600,
                   expect_ok=False, count=False)
     with open(bad["out"], errors="replace") as f:
@@ -27,6 +35,8 @@ def _run(ctx):
         raise lib.ToolError("no behaviours exported by Gen_RunLoop")
     res = lib.vh(ctx, "runloop", beh, props=[pid], timeout=3000)
     r = res["per_property"][pid]
+    if pid == "C34" and r.get("distinct_nontrivial", 0) == 0:
+        raise lib.ToolError("no non-trivial row of the refresh table was realised: " + "; ".join(r.get("divergences", [])[:2]))
     if r.get("notes", {}).get("child_errors", 0) > 0:
         raise lib.ToolError("child processes could not run the command")
     ctx.assumptions += [
@@ -44,7 +54,8 @@ def _run(ctx):
                "served /json data, RTR reset answer are compared and a pending notify long-poll must stay pending; the same around "
                "runs that fail after part of the tree has been validated (damaged store on a real repository)",
         "C34": "full table refresh x min-refresh (or unset) x data-set expiry (or none) in units of 100 s: a real run over a generated "
-               "repository whose manifest expires at the chosen time, then mark_update_done and refresh_wait; non-trivial = min-refresh "
+               "repository whose manifest expires at the chosen time, then mark_update_done and refresh_wait; every row with min-refresh "
+               "also after an earlier run with the same payload whose data set expired at another time; non-trivial = min-refresh "
                "set and different from refresh, or expiry before the refresh point",
     }
     return lib.finish(ctx, r, rules[pid], exhaustive=True)
